@@ -45,12 +45,17 @@ def run_script(name, args, cwd=None, inprocess=False, timeout=300):
     return r.returncode, r.stdout.decode(errors="replace"), r.stderr.decode(errors="replace")
 
 
-def write_nifti(path, array, affine=None, slope=None, inter=None):
-    """Write array (x,y,z[,c]) as NIfTI with nibabel; on-disk dtype = array dtype."""
+def write_nifti(path, array, affine=None, slope=None, inter=None, big_endian=False):
+    """Write array (x,y,z[,c]) as NIfTI with nibabel; on-disk dtype = array dtype
+    (big_endian: the file is stored in the non-native byte order)."""
     import nibabel as nib
     if affine is None:
         affine = np.eye(4)
-    img = nib.Nifti1Image(array, affine, dtype=array.dtype)
+    if big_endian and array.dtype.fields is None:
+        hdr = nib.Nifti1Header(endianness=">")
+        img = nib.Nifti1Image(array, affine, header=hdr, dtype=array.dtype)
+    else:
+        img = nib.Nifti1Image(array, affine, dtype=array.dtype)
     img.header.set_data_dtype(array.dtype)
     if slope is not None:
         img.header.set_slope_inter(slope, inter if inter is not None else 0.0)
